@@ -72,6 +72,9 @@ pub fn families(a: &Args, rng: &mut Rng) -> Vec<Fam> {
     for t in complementary_derivatives_family(&pool) {
         v.push(Fam { t, fam: "fresh-manager" });
     }
+    for t in redundant_loop_difference_family(&pool) {
+        v.push(Fam { t, fam: "redundant-loop-difference" });
+    }
     for (i, t) in common_factor_family(&pool).into_iter().enumerate() {
         if a.thorough() || i % 2 == (a.seed as usize) % 2 {
             v.push(Fam { t, fam: "common-factor" });
@@ -1479,6 +1482,54 @@ pub fn drive_c10(a: &Args) {
             .collect();
         next_id += 1000;
         results.extend(run_replace_jobs(items, subj2, vec![vec![], vec![88], vec![la, lb]], seed ^ la as u64, a.thorough()));
+    }
+    // an alternative that DIES without ever becoming the syntactic empty term (a flexible head in front of a
+    // semantically empty tail) next to an alternative that matches later in the subject: the death of one attempt says
+    // nothing about the attempts that start further right
+    {
+        let (x, y, z) = (pool.a, pool.b, pool.c);
+        let ch = |c: u32| Box::new(T::Chr(c));
+        let heads3: Vec<T> = vec![T::Star(ch(x)), T::All, T::Star(Box::new(T::Rng(x, y))), T::Plus(ch(x))];
+        let dead: Vec<T> = vec![
+            T::And2(ch(y), ch(z)),
+            T::And2(Box::new(T::Str(vec![x, y])), Box::new(T::Str(vec![y, x]))),
+            T::And2(Box::new(T::Cat2(Box::new(T::Star(ch(x))), ch(y))), Box::new(T::Cat2(Box::new(T::Star(ch(x))), ch(z)))),
+            T::Diff1(ch(y), Box::new(T::Rng(x, z))),
+        ];
+        let live: Vec<T> = vec![T::Chr(y), T::Str(vec![x, y]), T::Chr(z), T::Cat2(ch(y), Box::new(T::AllChar))];
+        let mut pats4: Vec<T> = vec![];
+        for h in &heads3 {
+            for d in &dead {
+                for l in &live {
+                    let dying = T::Cat2(Box::new(h.clone()), Box::new(d.clone()));
+                    pats4.push(T::Alt2(Box::new(dying.clone()), Box::new(l.clone())));
+                    pats4.push(T::Cat2(Box::new(T::Alt2(Box::new(dying), Box::new(T::Eps))), Box::new(l.clone())));
+                }
+            }
+        }
+        let pats4: Vec<T> = pats4.into_iter().map(|t| t.smt_form()).filter(|t| t.cost() <= COST_LIMIT).collect();
+        let mut subj4: Vec<Vec<u32>> = vec![vec![]];
+        let mut fr: Vec<Vec<u32>> = vec![vec![]];
+        for _ in 0..4 {
+            let mut nx = vec![];
+            for w in &fr {
+                for &c in &[x, y, z] {
+                    let mut v = w.clone();
+                    v.push(c);
+                    nx.push(v);
+                }
+            }
+            subj4.extend(nx.iter().cloned());
+            fr = nx;
+        }
+        let items: Vec<(usize, T, bool)> = pats4
+            .into_iter()
+            .enumerate()
+            .filter(|(i, _)| a.thorough() || (i / 2) % 2 == (a.seed as usize) % 2)
+            .map(|(i, t)| (next_id + i, t, true))
+            .collect();
+        next_id += 1000;
+        results.extend(run_replace_jobs(items, subj4, vec![vec![], vec![88], vec![x, y]], seed ^ 0x44, a.thorough()));
     }
     // three letters x < y < z: classes that are NOT intervals ({x,z} without y), repeated and followed / preceded by
     // another class; every subject up to length 4 over the three letters (a search that loops on x and z and then
